@@ -702,3 +702,107 @@ pub fn permutations<T: Clone>(xs: &[T]) -> Vec<Vec<T>> {
     }
     out
 }
+
+// ------------------------------------------------------------------------------------------
+// C13: substitution
+
+const VAR_NAMES: &[&str] = &["l1", "L_2", "SLTV_E1", "SLTV_E2", "UNSET_1", "x", "__TEST_DIR__", "__NOW__", "__DATABASE__", "9lives"];
+const VAR_VALUES: &[&str] = &["v", "a b", "$l1", "\\$", "{x}", "a:b", "é日本", "", "${UNSET_1}", "100%", "x\\\\y"];
+const LITS: &[&str] = &["select ", "'", " from t where a = ", "é", "{", "}", ":", " ", "日本", "%", "#", "(", "\n "];
+
+/// a piece of text over the documented substitution syntax (depth-bounded)
+fn gen_template(r: &mut Rng, depth: usize, in_default: bool) -> String {
+    let mut s = String::new();
+    for _ in 0..r.range(1, 4) {
+        match r.below(10) {
+            0..=3 => {
+                let l = *r.pick(LITS);
+                // inside a default, braces and colons are structure unless escaped
+                if in_default && (l == "{" || l == "}") {
+                    s.push('\\');
+                }
+                s.push_str(l);
+            }
+            4 => {
+                s.push('$');
+                s.push_str(*r.pick(VAR_NAMES));
+                // a following name character would extend the name: separate it
+                s.push_str(*r.pick(&[" ", "-", "'", "."]));
+            }
+            5 => s.push_str(&format!("${{{}}}", r.pick(VAR_NAMES))),
+            6 | 7 => {
+                if depth > 0 {
+                    let d = gen_template(r, depth - 1, true);
+                    s.push_str(&format!("${{{}:{}}}", r.pick(VAR_NAMES), d));
+                } else {
+                    s.push_str(&format!("${{{}:dflt}}", r.pick(VAR_NAMES)));
+                }
+            }
+            8 => s.push_str(*r.pick(&["\\$", "\\\\", "\\{", "\\}", "\\:"])),
+            _ => s.push_str("x"),
+        }
+    }
+    s
+}
+
+const MALFORMED_SUBST: &[&str] = &[
+    "select \\x", "select ${", "select ${}", "select ${a!}", "select $", "select ${a", "select ${a:b", "select $-",
+    "select ${a:${b}", "select \\", "select ${a:$}", "select ${UNSET_1:$}", "select '$' ", "a ${x:{}} b", "${x:\\}",
+];
+
+pub fn gen_c13(r: &mut Rng) -> ScriptCase {
+    let mut db = DbScript { engine: "mock".into(), ..Default::default() };
+    let mut text = String::new();
+    let n = r.range(1, 7);
+    let on_at = if r.chance(5, 6) { Some(r.below(n)) } else { None };
+    let off_at = if r.chance(1, 4) { Some(r.below(n)) } else { None };
+    for i in 0..n {
+        if Some(i) == on_at {
+            text.push_str("control substitution on\n\n");
+        }
+        if Some(i) == off_at {
+            text.push_str("control substitution off\n\n");
+        }
+        let body = if r.chance(1, 7) { r.pick(MALFORMED_SUBST).to_string() } else { gen_template(r, 3, false) };
+        // SQL must not contain an empty line / `----` line: keep it on lines starting with a letter
+        let body = body.replace("\n\n", "\n ");
+        match r.below(6) {
+            0 => {
+                // system command: simple replacement only
+                text.push_str(&format!("system ok\necho {}\n\n", body.replace('\n', " ")));
+            }
+            1 => text.push_str(&format!("statement error\nq {}\n\n", body)),
+            2 => {
+                text.push_str(&format!("skipif mock\nstatement ok\nq {}\n\n", body));
+            }
+            3 => text.push_str(&format!("query T\nq {}\n\n", body)),
+            _ => text.push_str(&format!("statement ok\nq {}\n\n", body)),
+        }
+    }
+    let mut locals = vec![];
+    if r.chance(2, 3) {
+        locals.push(("l1".to_string(), r.pick(VAR_VALUES).to_string()));
+    }
+    if r.chance(1, 2) {
+        locals.push(("L_2".to_string(), r.pick(VAR_VALUES).to_string()));
+    }
+    if r.chance(1, 3) {
+        locals.push(("__DATABASE__".to_string(), "db1".to_string()));
+    }
+    if r.chance(1, 4) {
+        locals.push(("x".to_string(), r.pick(VAR_VALUES).to_string()));
+    }
+    let mut env = vec![];
+    if r.chance(2, 3) {
+        env.push(("SLTV_E1".to_string(), r.pick(VAR_VALUES).to_string()));
+    }
+    if r.chance(1, 3) {
+        env.push(("SLTV_E2".to_string(), r.pick(VAR_VALUES).to_string()));
+    }
+    if r.chance(1, 4) {
+        // an environment variable shadowed by a runner-local one
+        env.push(("l1".to_string(), "FROM_ENV".to_string()));
+    }
+    db.default = Ans::Complete(0);
+    ScriptCase { labels: vec![], locals, env, text, db, tag: "c13".into(), ..Default::default() }
+}
